@@ -41,15 +41,18 @@ pub struct PlanEnv {
 
 pub fn observe(regs: &[Reg], map: MapMode, env: &PlanEnv) -> String { observe_with(regs, map, env, false) }
 
-pub fn observe_with(regs: &[Reg], map: MapMode, env: &PlanEnv, alt_pool: bool) -> String {
+pub fn observe_with(regs: &[Reg], map: MapMode, env: &PlanEnv, alt_pool: bool) -> String { observe_mode(regs, map, env, alt_pool, false) }
+
+/// `recover`: panicking registrations are caught and the builder is used on (errs=<call index>:<class>,...)
+pub fn observe_mode(regs: &[Reg], map: MapMode, env: &PlanEnv, alt_pool: bool, recover: bool) -> String {
     let rec = Recorder::new(map);
     rec.set_caller();
     #[cfg(not(feature = "parallel"))]
     let _ = alt_pool;
     #[cfg(feature = "parallel")]
-    let out = build(regs, &rec, Some(if alt_pool { &env.pool_alt } else { &env.pool }));
+    let out = build_mode(regs, &rec, Some(if alt_pool { &env.pool_alt } else { &env.pool }), recover);
     #[cfg(not(feature = "parallel"))]
-    let out = { let _ = env; build(regs, &rec) };
+    let out = { let _ = env; build_mode(regs, &rec, recover) };
     let mut s = String::new();
     match (&out.builder, &out.err) {
         (None, Some(e)) => {
@@ -60,6 +63,10 @@ pub fn observe_with(regs: &[Reg], map: MapMode, env: &PlanEnv, alt_pool: bool) -
         _ => {}
     }
     s.push_str(&format!("calls={};err=none;", out.calls));
+    if recover {
+        let e: Vec<String> = out.errs.iter().map(|(i, c)| format!("{}@{}", i, c)).collect();
+        s.push_str(&format!("errs={};", if e.is_empty() { "-".to_string() } else { e.join(",") }));
+    }
     let builder = out.builder.unwrap();
     let mut dispatcher = builder.build();
     let mut world = make_world(regs, map);
